@@ -519,6 +519,9 @@ MODULES['C12'] += ['C12GenAttr']; AUDITS['C12'] += ['C12GenAttr']   # match_attr
 MODULES['C02'] += ['C02Gen']; AUDITS['C02'] += ['C02Gen']   # the An+B block of parse_pseudo_nth translated from the source (gen/gen_py_anb.py)
 MODULES['C03'] += ['C03Gen']; AUDITS['C03'] += ['C03Gen']   # query entry points translated from the source (gen/gen_py_api.py)
 MODULES['C19'] += ['C19Gen', 'C19GenRoot']; AUDITS['C19'] += ['C19Gen', 'C19GenRoot']   # match_empty / match_contains / match_root translated from the source (gen/gen_py_textfn.py)
+MODULES['C06'] += ['C06GenCustom']; AUDITS['C06'] += ['C06GenCustom']   # process_custom translated from the source (gen/gen_py_smallfn.py)
+MODULES['C17'] += ['C17GenSmall', 'C17GenOwnDir']; AUDITS['C17'] += ['C17GenSmall', 'C17GenOwnDir']   # match_defined / match_placeholder_shown / match_scope / match_own_dir translated from the source (gen/gen_py_smallfn.py)
+MODULES['C11'] += ['C11GenAttrSel']; AUDITS['C11'] += ['C11GenAttrSel']; MODULES['C01'] += ['C11GenAttrSel']; AUDITS['C01'] += ['C11GenAttrSel']   # the decisions of parse_attribute_selector translated from the source (gen/gen_py_attrsel.py)
 # `CxxRx` modules restate the property theorems about the regular expressions REGENERATED from the source
 # (the hand-written scanners are proved equal to the regex-engine model on them in lean/SoupVerif/Refine/).
 
